@@ -47,8 +47,8 @@ ASSUMPTIONS = [
     "sum_waveform: every hit lies in one record with integer baseline and no bit shift (record handling is C18); "
     "data_top / data_start are not modelled",
     "merge_peaks: max_buffer is large enough; every merge range is non-empty (the real code reads out of bounds otherwise)",
-    "replace_merged / highest_density_region: inputs on which the real numba code would write out of bounds "
-    "(an original row touching two merged rows; exactly _buffer_size + 1 intervals) are not generated",
+    "replace_merged: inputs on which the real numba code would write out of bounds (an original row touching two "
+    "merged rows) are not generated; every real call runs in a forked worker, a dying worker is isolated and reported",
     "int32/int64 wrap-around is not modelled; peak lengths are non-negative",
 ]
 
@@ -837,6 +837,44 @@ def runs_of(idx):
     return runs
 
 
+def hdr_candidates(data, upper):
+    """level sets in the order the algorithm meets them: (set of indices, level below the set)"""
+    n = len(data)
+    cands = []
+    if n < 2:
+        return cands
+    top = max(data)
+    if sum(1 for x in data if x == top) > 1:
+        # tied maximum: the first candidate is the single LAST sample of the maximum (stable sort, reversed)
+        cands.append(([max(i for i, x in enumerate(data) if x == top)], top))
+    for v in sorted(set(data), reverse=True):
+        if v < top:
+            cands.append(([i for i, x in enumerate(data) if x > v], v))
+    return cands
+
+
+def expected_hdr(case):
+    """definition: per fraction the maximal runs of the smallest level set holding the fraction (mass above the
+    level when only_upper_part), the whole range if none does, all -1 if the runs do not fit into the buffer"""
+    data = [fr(x) for x in case["data"]]
+    area, n, buf = sum(data), len(data), case["buf"]
+    rows, amps = [], []
+    for f in [fr(x) for x in case["fractions"]]:
+        for S, v in hdr_candidates(data, case["upper"]):
+            low = v if case["upper"] else 0
+            mass = sum(data[i] - low for i in S)
+            if mass >= f * area:
+                runs = [tuple(r) for r in runs_of(S)]
+                rows.append([(-1, -1)] * buf if len(runs) > buf else runs + [(0, 0)] * (buf - len(runs)))
+                g = f * area / mass if mass else None
+                amps.append(None if g is None else (1 - g) * sum(data[i] for i in S) / len(S) + g * low)
+                break
+        else:
+            rows.append([(0, n)] + [(0, 0)] * (buf - 1))
+            amps.append((1 - f) * area / n)
+    return rows, amps
+
+
 def oracle_hdr(case, out, aux):
     data = [fr(x) for x in case["data"]]
     area = sum(data)
@@ -846,47 +884,21 @@ def oracle_hdr(case, out, aux):
         return f"unexpected {out}"
     rows = [] if out[3:] == "-" else out[3:].split(" ")
     fractions = [fr(x) for x in case["fractions"]]
-    if fractions != sorted(fractions):
-        return None                         # unsorted fractions: correspondence only
-    n = len(data)
+    if fractions != sorted(fractions) or any(f <= 0 for f in fractions) or any(x < 0 for x in data):
+        return None                         # unsorted / zero fractions, negative samples: correspondence only
+    want_rows, want_amps = expected_hdr(case)
+    if len(rows) != len(fractions):
+        return "one result row per fraction expected"
     for k, (f, row) in enumerate(zip(fractions, rows)):
         iv = [tuple(int(x) for x in t.split(":")) for t in row.split(";")]
-        if iv[0] == (-1, -1):
-            continue                        # more intervals than the buffer holds
-        iv = [q for q in iv if q != (0, 0)]
-        S = sorted({i for a, b in iv for i in range(a, b)})
-        if [tuple(r) for r in runs_of(S)] != iv:
-            return f"fraction {f}: intervals are not the maximal runs of a set of samples"
-        rest = [i for i in range(n) if i not in S]
-        if not S:
-            return f"fraction {f}: empty region"
-        if rest and min(data[i] for i in S) < max(data[i] for i in rest):
-            return f"fraction {f}: region is not a highest-density set (a sample outside is higher than one inside)"
-        if rest:
-            low = max(data[i] for i in rest) if case["upper"] else 0
-            mass = sum(data[i] - low for i in S)
-            if mass < f * area:
-                return f"fraction {f}: region holds {mass} < {f}*{area}"
-            # minimal among the level sets
-            lvl = min(data[i] for i in S)
-            S2 = [i for i in S if data[i] > lvl]
-            if S2:
-                low2 = lvl if case["upper"] else 0
-                if sum(data[i] - low2 for i in S2) >= f * area:
-                    return f"fraction {f}: a smaller level set already holds the fraction"
-            if aux is not None:
-                g = f * area / mass if mass else None
-                if g is not None:
-                    want = (1 - g) * sum(data[i] for i in S) / len(S) + g * low
-                    if abs(aux[k] - float(want)) > 1e-5 * max(1.0, abs(float(want))):
-                        return f"fraction {f}: amplitude {aux[k]} != {want}"
-        else:
-            # whole range: only allowed when no proper level set suffices
-            lvl = min(data)
-            S2 = [i for i in range(n) if data[i] > lvl]
-            low2 = lvl if case["upper"] else 0
-            if S2 and n > 1 and sum(data[i] - low2 for i in S2) >= f * area:
-                return f"fraction {f}: whole range returned although the samples above the minimum hold the fraction"
+        if iv != want_rows[k]:
+            def show(r):
+                return ";".join(f"{a}:{b}" for a, b in r)
+            return (f"fraction {f}: intervals {show(iv)} != maximal runs of the smallest level set holding the fraction "
+                    f"{show(want_rows[k])} (buffer of {case['buf']} intervals)")
+        if aux is not None and want_amps[k] is not None and iv[0] != (-1, -1):
+            if abs(aux[k] - float(want_amps[k])) > 1e-5 * max(1.0, abs(float(want_amps[k]))):
+                return f"fraction {f}: amplitude {aux[k]} != {want_amps[k]}"
     return None
 
 
@@ -1177,19 +1189,17 @@ def helper_cases(ctx):
         n = rng.randint(1, 8)
         hdr.append(dict(data=[rng.choice([0, 1, 2, 3, 5, "1/2"]) for _ in range(n)], fractions=rng.choice(f_sets), upper=rng.randint(0, 1),
                         buf=rng.choice([10, 10, 1, 2])))
-    hdr = [c for c in hdr if hdr_safe(c)]
+    # buffer edge (D30): regions with exactly _buffer_size - 1, _buffer_size, _buffer_size + 1, _buffer_size + 2 intervals
+    for buf in (1, 2, 3):
+        for nruns in range(max(1, buf - 1), buf + 3):
+            for hi, lo, tail in ((3, 0, []), (2, 1, [0]), (3, 0, [1])):
+                d = []
+                for _k in range(nruns):
+                    d += [hi, lo]
+                d = (d + tail)[:8]
+                for upper in (0, 1):
+                    hdr.append(dict(data=d, fractions=["1/2", "7/8", "1"], upper=upper, buf=buf))
     return sma, iof, widths, hdr
-
-
-def hdr_safe(case):
-    """the real code writes out of bounds when a region has exactly _buffer_size + 1 intervals: never generate that"""
-    data = [fr(x) for x in case["data"]]
-    for lvl in set(data):
-        S = [i for i, x in enumerate(data) if x > lvl]
-        if len(runs_of(S)) == case["buf"] + 1:
-            return False
-    # the tied-maximum corner picks a single sample: one interval, always fine
-    return case["buf"] >= 1
 
 
 # ----------------------------------------------------------------------------- run
@@ -1261,7 +1271,7 @@ def _components(ctx):
         nontrivial=lambda c, o: c["length"] >= 2, rule="same waveforms, n_widths = 5 (fractions k/8), dt in {1,2,10}")))
     comps.append(("highest_density_region", "hdr", hdr, op_hdr, oracle_hdr, dict(
         exhaustive=True, nontrivial=lambda c, o: len(c["data"]) >= 3 and len(c["fractions"]) >= 1, branch=lambda c, o: ("err" if o.startswith("err") else ("fill-1" if "-1:-1" in o else "ok")) + f":upper={c['upper']}",
-        rule="every distribution of <= 5 samples over {0..3} x 6 fraction lists x both modes; random 1..8 samples, buffer sizes 1,2,10")))
+        rule="every distribution of <= 5 samples over {0..3} x 6 fraction lists x both modes; random 1..8 samples, buffer sizes 1,2,10; buffer-edge inputs with _buffer_size-1 .. _buffer_size+2 intervals for sizes 1,2,3")))
     return comps
 
 
